@@ -131,6 +131,11 @@ fn c01_family<S: Sch>(t: Tier, seed: u64, out: &mut Vec<Entry>) {
     add("3p1z-zero-poly-middle", mk(vec![PolySpec::new(2).conc(), PolySpec::new(2).zero(), PolySpec::new(2).conc()], 0), Mode::Batch);
     if S::BOUNDS {
         add("1p1z-zero-poly-bound", mk(vec![PolySpec::new(2).zero().bound(1)], 0), Mode::Single);
+        // a degree-0 polynomial (symbolic constant) with a degree bound in front of another polynomial, in one
+        // opening and at its own point label of a batch
+        add("2p1z-const-bounded-then-plain", mk(vec![PolySpec::new(1).bound(1), PolySpec::new(2).conc()], 0), Mode::Single);
+        add("2p2z-const-bounded-then-plain-batch", mk(vec![PolySpec::new(1).bound(1), PolySpec::new(2).conc()], 0).points(2, vec![(0, 0), (1, 1)]), Mode::Batch);
+        add("2p1z-zero-bounded-then-plain", mk(vec![PolySpec::new(2).zero().bound(1), PolySpec::new(2).conc()], 0), Mode::Single);
     }
     if S::BOUNDS {
         // one opening over polynomials with different degree bounds (and one without)
@@ -417,6 +422,10 @@ fn c11_family<S: Sch>(t: Tier, seed: u64, out: &mut Vec<Entry>) {
     if S::BOUNDS {
         let sup = std_size::<S>(t, 0).supported;
         add("hist-ob-bounds", mk(vec![PolySpec::new(2).conc().bound(sup - 1), PolySpec::new(2).conc()], 2, two.clone()), Box::new(|c| c11::lockstep::<S>(c, &[Op::Open(1), Op::Batch])), false);
+        // a degree-0 polynomial (symbolic constant, zero included) and the zero polynomial under a degree bound, each
+        // followed by further operations on the same sponge
+        add("hist-ob-const-bounded", mk(vec![PolySpec::new(1).bound(sup - 1), PolySpec::new(2).conc()], 2, two.clone()), Box::new(|c| c11::lockstep::<S>(c, &[Op::Open(0), Op::Batch])), false);
+        add("hist-bo-zero-bounded", mk(vec![PolySpec::new(2).zero().bound(sup - 1), PolySpec::new(2).conc()], 2, two.clone()), Box::new(|c| c11::lockstep::<S>(c, &[Op::Batch, Op::Open(0)])), false);
     }
     if matches!(name, "ligero-uni" | "ligero-ml") {
         let mut c = mk(conc(2), 2, two.clone());
@@ -1088,6 +1097,17 @@ fn catalogue_inner(prop: &str, t: Tier, seed: u64, out: &mut Vec<Entry>) {
                 c.sym_points = false;
                 c.sym_ch = false;
                 add(format!("ligero-ml/c{}", which), format!("{:?} concrete polynomial/point, natural challenges", c.sz), Box::new(move || c10::ligero::<LigeroMl>(&c, which, false)));
+                // two polynomials of equal size in one opening (the component replaced belongs to the second one)
+                if [0usize, 1, 3, 5, 8, 12].contains(&which) {
+                    let mut c = mkc(Size::uni(4, 3, 0), vec![PolySpec::new(4).conc(), PolySpec::new(4).conc()]);
+                    c.sym_points = false;
+                    c.sym_ch = false;
+                    add(format!("ligero-uni/2p-c{}", which), format!("{:?} two concrete polynomials of one size, natural challenges", c.sz), Box::new(move || c10::ligero::<LigeroUni>(&c, which, true)));
+                    let mut c = mkc(Size::mv(2, 1, 0), vec![PolySpec::new(1).conc(), PolySpec::new(1).conc()]);
+                    c.sym_points = false;
+                    c.sym_ch = false;
+                    add(format!("ligero-ml/2p-c{}", which), format!("{:?} two concrete polynomials, natural challenges", c.sz), Box::new(move || c10::ligero::<LigeroMl>(&c, which, false)));
+                }
                 // Brakedown: below the base length (default parameters, 2 variables) and in the recursive regime
                 // (hand-made parameters with base length 3, 4 variables: A 8x2, Reed-Solomon 2 -> 4, B 4x1)
                 let mut c = mkc(Size::mv(2, 1, 0), vec![PolySpec::new(1).conc()]);
@@ -1521,8 +1541,8 @@ fn catalogue_inner(prop: &str, t: Tier, seed: u64, out: &mut Vec<Entry>) {
                     out.push(en);
                 }
             }
-            for n in if quick { vec![1usize, 3] } else { vec![1usize, 2, 3, 5] } {
-                let mut en = e(format!("keys/interop-n{}", n), t, "coefficients of two polynomials, point, index-vector values, delta", format!("{} coefficients; as_committer_key, VerifierKey::from(&stream), batch_commit, index_by, proof addition", n), move || c14::key_interop(n, seed));
+            for (n, pts) in if quick { vec![(1usize, 1usize), (3, 2), (2, 1)] } else { vec![(1usize, 1usize), (2, 1), (3, 1), (3, 2), (5, 3)] } {
+                let mut en = e(format!("keys/interop-n{}-pts{}", n, pts), t, "coefficients of three polynomials, point, index-vector values, delta", format!("{} coefficients, key made for {} evaluation point(s); as_committer_key, VerifierKey::from(&stream), batch_commit (equal and shrinking lengths), index_by, proof addition", n, pts), move || c14::key_interop(n, pts, seed));
                 en.funcs = vec!["CommitterKeyStream::{as_committer_key,commit}", "VerifierKey::from(&CommitterKeyStream)", "CommitterKey::{batch_commit,index_by,open}", "EvaluationProof::{add,sum}", "Commitment::size_in_bytes"];
                 if quick { en.lim.wall_s = 45.0; }
                 out.push(en);
@@ -1535,6 +1555,12 @@ fn catalogue_inner(prop: &str, t: Tier, seed: u64, out: &mut Vec<Entry>) {
                     if quick { en.lim.wall_s = 45.0; }
                     out.push(en);
                 }
+            }
+            for (n, k) in if quick { vec![(3usize, 1usize)] } else { vec![(3usize, 1usize), (4, 2)] } {
+                let mut en = e(format!("multi/repeated-point-n{}-polys{}", n, k), t, "coefficients, two distinct points (the first named twice), eta (!= 0), delta", format!("{} coefficients, {} polynomial(s), points [x0, x1, x0]", n, k), move || c14::multi_repeated_point(n, k, seed));
+                en.funcs = f.clone();
+                if quick { en.lim.wall_s = 45.0; }
+                out.push(en);
             }
             // a zero polynomial (an all-zero row of claimed evaluations) inside the batch, followed by non-zero ones
             for (n, m, k, z) in if quick { vec![(3usize, 2usize, 2usize, 0usize), (3, 2, 3, 1)] } else { vec![(3usize, 2usize, 2usize, 0usize), (3, 2, 3, 1), (4, 3, 3, 0), (3, 1, 2, 0)] } {
